@@ -651,4 +651,69 @@ theorem foldSet_distinct : ∀ (g d : Comp), (gkeys (d ++ g)).Nodup → foldSet 
     rw [setTo_new k v d hk, this]
     simp
 
+/-! ## a sufficient condition for unambiguity -/
+
+/-- some vocabulary name continues `nm` with the character `c` (e.g. `Neu5Ac` continues `Neu` with `5`) -/
+def clash (names : List Str) (nm : Str) (c : Nat) : Bool := names.any (fun n => (nm ++ [c]).isPrefixOf n)
+
+/-- no written name is continued, by the first character of its count, to a longer vocabulary name -/
+def NoClash (names : List Str) (g : Comp) : Bool :=
+  g.all (fun kv => match kv.2.show with
+    | [] => true
+    | c :: _ => !clash names kv.1 c)
+
+theorem startsCount_append {a b : Str} (ha : a ≠ []) (h : startsCount a = false) : startsCount (a ++ b) = false := by
+  cases a with
+  | nil => exact absurd rfl ha
+  | cons c t => exact h
+
+theorem startsCount_write (names : List Str) (hne : ∀ nm ∈ names, nm ≠ [])
+    (hstart : ∀ nm ∈ names, startsCount nm = false) (g : Comp) (hk : ∀ kv ∈ g, kv.1 ∈ names) :
+    startsCount (writeGlycan g []) = false := by
+  cases g with
+  | nil => rfl
+  | cons kv r =>
+    obtain ⟨nm, v⟩ := kv
+    have hm : nm ∈ names := hk (nm, v) (by simp)
+    rw [writeGlycan_cons, List.append_assoc]
+    exact startsCount_append (hne nm hm) (hstart nm hm)
+
+theorem unambig_of_noClash (names : List Str) (hne : ∀ nm ∈ names, nm ≠ [])
+    (hstart : ∀ nm ∈ names, startsCount nm = false) :
+    ∀ g : Comp, (∀ kv ∈ g, kv.1 ∈ names) → (∀ kv ∈ g, NumOK kv.2) → NoClash names g = true →
+      Unambig names g = true := by
+  intro g
+  induction g with
+  | nil => intro _ _ _; rfl
+  | cons kv g ih =>
+    intro hk hv hc
+    obtain ⟨nm, v⟩ := kv
+    have hm : nm ∈ names := hk (nm, v) (by simp)
+    have hk' : ∀ kv ∈ g, kv.1 ∈ names := fun kv hkv => hk kv (List.mem_cons_of_mem _ hkv)
+    simp only [NoClash, List.all_cons, Bool.and_eq_true] at hc
+    have ih' := ih hk' (fun kv hkv => hv kv (List.mem_cons_of_mem _ hkv)) hc.2
+    simp only [Unambig, Bool.and_eq_true, Bool.not_eq_true', List.contains_iff_mem, List.all_eq_true,
+      Bool.or_eq_true, decide_eq_true_eq]
+    refine ⟨⟨⟨hm, ?_⟩, startsCount_write names hne hstart g hk'⟩, ih'⟩
+    intro n hn
+    by_cases hlen : n.length ≤ nm.length
+    · exact Or.inr hlen
+    · left
+      cases hp : n.isPrefixOf (nm ++ v.show ++ writeGlycan g []) with
+      | false => rfl
+      | true =>
+        exfalso
+        have hvne := (hv (nm, v) (by simp)).ne
+        cases hsh : v.show with
+        | nil => exact hvne hsh
+        | cons c s =>
+          have hc1 := hc.1
+          simp only [hsh, Bool.not_eq_true', clash, List.any_eq_false] at hc1
+          apply hc1 n hn
+          rw [hsh] at hp
+          rw [List.isPrefixOf_iff_prefix] at hp ⊢
+          have h2 : (nm ++ [c]) <+: (nm ++ c :: s ++ writeGlycan g []) :=
+            ⟨s ++ writeGlycan g [], by simp⟩
+          exact List.prefix_of_prefix_length_le h2 hp (by simp; omega)
+
 end Formula
